@@ -83,7 +83,7 @@ def mod_typed_names(fn):
 def run(ctx, report):
     ea = ctx.mod('eval_abs')
     hlp = ctx.mod('expr_helper')
-    L = LifterModel(ctx, opmodes=('u32', 'u16'), rich=(ctx.tier == 'thorough'))
+    L = LifterModel(ctx, opmodes=('u32', 'u16'), rich=True)
     report.explanation = (
         'D1: every operator string the lifter can put into value-carrying IR (collected with its operand counts from the E4 templates of all decoder forms) '
         'either has an entry in eval_abs.deal_op whose evaluator indexes no more operands than the lifter passes, or -- for uninterpreted x87/SSE/system '
